@@ -353,8 +353,8 @@ Proof. vm_compute. auto. Qed.
 Definition f4_trace : list (op * list obs) :=
   [(ODeclExtern [[118]] [(RSingle (Some [99])); RWildcard], [(BTable 0)]); (ODeclExtern [[117]] [(RSingle (Some [99])); (RSingle (Some [100])); RWildcard], [(BTable 1)]); (ODeclExtern [[116]] [RWildcard], [(BTable 2)]); (OBegin false 142 (Some [116]) (SExisting 2), [(BDepth 1); (BInput 142 [(RWildcard, 0)]); (BTop (TFrom (mkTRef 2 [(RWildcard, 0)] (Some [116]))))]); (OBegin true 132 (Some [117]) (SExisting 1), [(BReserved 3); (BDepth 2); (BInput 132 [((RSingle (Some [99])), 1); ((RSingle (Some [100])), 2); (RWildcard, 3)]); (BTop (TFrom (mkTRef 1 [((RSingle (Some [99])), 1); ((RSingle (Some [100])), 2); (RWildcard, 3)] (Some [117]))))]); (ODeclare 134 (ERef 1) None false true, [(BCid 134 1)]); (ODeclare 135 (ERef 2) None false true, [(BCid 135 2)]); (OPush (TSelect [1; 2]), [(BTop (TSelect [1; 2]))]); (OBegin true 122 (Some [118]) (SExisting 0), [(BReserved 4); (BDepth 3); (BInput 122 [((RSingle (Some [99])), 4); (RWildcard, 5)]); (BTop (TFrom (mkTRef 0 [((RSingle (Some [99])), 4); (RWildcard, 5)] (Some [118]))))]); (ODeclare 124 (ERef 4) None false true, [(BCid 124 4)]); (OPush (TSelect [4]), [(BTop (TSelect [4]))]); (OEndInline 126 [((RSingle (Some [99])), 4)] (UJoin JInner ELit), [(BTable 4); (BDepth 2); (BInput 126 [((RSingle (Some [99])), 6)]); (BRedirect [(4, 6)]); (BTop (TJoin JInner (mkTRef 4 [((RSingle (Some [99])), 6)] None) ELit))]); (OEndInline 139 [((RSingle (Some [99])), 1); ((RSingle (Some [100])), 2); ((RSingle (Some [99])), 6)] (UJoin JInner ELit), [(BTable 3); (BDepth 1); (BInput 139 [((RSingle (Some [99])), 7); ((RSingle (Some [100])), 8); ((RSingle (Some [99])), 9)]); (BRedirect [(1, 7); (2, 8); (6, 9)]); (BTop (TJoin JInner (mkTRef 3 [((RSingle (Some [99])), 7); ((RSingle (Some [100])), 8); ((RSingle (Some [99])), 9)] None) ELit))]); (OEndTable (Some [109;97;105;110]) [(RWildcard, 0); ((RSingle (Some [99])), 7); ((RSingle (Some [100])), 8); ((RSingle (Some [99])), 9)], [(BTable 5); (BDepth 0)])].
 
-Example c16_ex_trace_replays : replay_ok f4_trace f4_head_rq = true /\ map fst f4_trace = f4_ops.
-Proof. vm_compute. auto. Qed.
+Example c16_ex_trace_replays : replay_ok f4_trace f4_head_rq = true.
+Proof. vm_compute. reflexivity. Qed.
 
 Example c16_ex_corrupted_trace_does_not_replay :
   replay_verdict (firstn 5 f4_trace ++ [(ODeclare 134 ELit None false false, [BCid 134 2])] ++ skipn 6 f4_trace) f4_head_rq = 6
